@@ -160,3 +160,26 @@ func VerifC13Duration(v *vrt.T) {
 	}
 	v.Reach("end")
 }
+
+// verifFloatTexts: float literals at the boundaries of Go's formatting modes (the symbolic
+// contexts above exclude floats: formatting a symbolic float64 is outside the solver's
+// reach, so these are concrete).
+var verifFloatTexts = []string{
+	"0.00001", "0.0001", "0.000099999", "100000000000000000000.0", "1000000000000000000000.0", "999999999999999999999.9",
+	"123456789.125", "0.1", "1.0", "0.30000000000000004", "179769313486231570000000000000000000000000000000000000000000000000000000000000000000000000000000000000000000000000000000000000000000000000000000000000000000000000000000000000000000000000000000000000000000000000000000000000000000000000000000000000000000000000000000000000000000000000.0",
+	"0.000000000000000000000000000000000000000000001",
+}
+
+// VerifC13FloatLiterals: the round trip obligations for scripts with float literals in
+// plain and in lambda context.
+func VerifC13FloatLiterals(v *vrt.T) {
+	f := verifFloatTexts[v.Choose("float", len(verifFloatTexts))]
+	ctx := []verifFmtCtx{{"var x = ", "", false}, {"var x = lambda: \"a\" > ", "", false}, {"var x = lambda: -", " + \"a\"", false}}[v.Choose("ctx", 3)]
+	n1, err := Parse(ctx.prefix + f + ctx.suffix)
+	v.Assert(err == nil, "the script parses")
+	if err != nil {
+		return
+	}
+	_ = n1
+	verifRoundTrip(v, ctx.prefix+f+ctx.suffix)
+}
